@@ -221,7 +221,8 @@ theorem alias_tracking (n : Nat) (a b : SV) (w : Nat) (res tb : Int)
 
 /-- The composition the query path performs on one stored column and one group — per source
     row: read the file row into a buffer of the scan's own, `rowMerger` (file column with the
-    memstore column, which `Tree.Copy` shares with the live memstore), `SubMerge` into the out
+    memstore column: a column of the scan's snapshot — a private copy since /repo 63b81da, the
+    live memstore's own sequence before; the theorem does not care which), `SubMerge` into the out
     tree's own sequence (nil at first); finally `ValueAtTime` in flatten — never stores into a
     buffer that existed before the query started.  For any number of source rows, any views
     (also: several rows aliasing the same stored sequence), any expressions, sub-mergers,
@@ -276,14 +277,84 @@ theorem probe_unchanged {α : Type} (n0 : Nat) (fe ex : Ex) (sm : SM) (tres tb q
     probe h' = probe h :=
   hstore h' h (store_bytes_unchanged n0 fe ex sm tres tb qres asOf hi stride rows ts h h' hexec)
 
-/-- `Tree.Copy` (memstore snapshot for a scan) allocates new node objects but shares every
-    `data` array and every sequence with the live tree: that is why the frame theorems above
-    are needed at all. -/
-theorem treeCopy_shares (nObj : Nat) (t : List TNode) :
-    (treeCopyEff nObj t).map (·.cols) = t.map (·.cols) ∧
-    (treeCopyEff nObj t).map (·.dataArr) = t.map (·.dataArr) ∧
-    (treeCopyEff nObj t).map (·.obj) = (List.range t.length).map (· + nObj) :=
-  treeCopyEff_spec nObj t
+/-! ### the memstore snapshot (`Tree.Copy`) -/
+
+/-- `Tree.Copy` (the memstore snapshot a scan works on; /repo 63b81da): new node objects, a new
+    `[]Sequence` array and ONE fresh byte buffer per node that has data (its size = the summed
+    lengths of the node's sequences); every sequence of the copy is a view with `cap = len`
+    into one of these fresh buffers `n … n + #allocs - 1`, with the length and `until` of the
+    original (nil stays nil); and the copy writes these fresh buffers only. -/
+theorem treeCopy_fresh (nObj nArr n : Nat) (t : List TNode) :
+    (∀ nd ∈ (treeCopyEff nObj nArr n t).nodes, ∀ cols, nd.data = some cols → ∀ s' ∈ cols, ∀ v', s'.sl = some v' →
+      n ≤ v'.buf ∧ v'.buf < n + (treeCopyEff nObj nArr n t).allocs.length ∧ v'.cap = v'.len) ∧
+    (∀ w ∈ (treeCopyEff nObj nArr n t).writes,
+      n ≤ w.buf ∧ w.buf < n + (treeCopyEff nObj nArr n t).allocs.length) ∧
+    (treeCopyEff nObj nArr n t).nodes.map TNode.shape = t.map TNode.shape ∧
+    (treeCopyEff nObj nArr n t).nodes.map (·.obj) = (List.range t.length).map (· + nObj) ∧
+    (∀ nd ∈ (treeCopyEff nObj nArr n t).nodes, nd.data ≠ none → nArr ≤ nd.dataArr) ∧
+    (treeCopyEff nObj nArr n t).allocs = t.filterMap (fun nd => nd.data.map colsTotal) :=
+  ⟨(treeCopyEff_fresh t nObj nArr n).1, (treeCopyEff_fresh t nObj nArr n).2, treeCopyEff_shape t nObj nArr n⟩
+
+/-- the copy shares no byte with the live tree: no view of the copy lies in a buffer of a live
+    sequence (any buffer that existed before the copy), and the copy itself writes none of them. -/
+theorem treeCopy_disjoint_from_live (nObj nArr n : Nat) (t : List TNode) (v : View) (hlive : v.buf < n) :
+    (∀ nd ∈ (treeCopyEff nObj nArr n t).nodes, ∀ cols, nd.data = some cols → ∀ s' ∈ cols, ∀ v', s'.sl = some v' →
+      v'.buf ≠ v.buf) ∧
+    (∀ w ∈ (treeCopyEff nObj nArr n t).writes, w.buf ≠ v.buf) := by
+  constructor
+  · intro nd hnd cols hcols s' hs' v' hv'
+    have := (treeCopyEff_fresh t nObj nArr n).1 nd hnd cols hcols s' hs' v' hv'
+    omega
+  · intro w hw
+    have := (treeCopyEff_fresh t nObj nArr n).2 w hw
+    omega
+
+/-- the frame between live tree and snapshot, both ways.  (1) Whatever is stored afterwards
+    into buffers that existed before the copy — inserts into the live memstore (`UpdateValue` in
+    place) included — no byte of any sequence of the copy changes.  (2) Whatever is stored
+    through the copy or into anything allocated after it (the query's own buffers), no byte of
+    a buffer that existed before the copy changes. -/
+theorem treeCopy_isolated (nObj nArr n : Nat) (t : List TNode) (h h' : Nat → Nat → UInt8) (ws : List Write)
+    (hexec : Agrees h h' ws) :
+    ((∀ w ∈ ws, w.buf < n) →
+      ∀ nd ∈ (treeCopyEff nObj nArr n t).nodes, ∀ cols, nd.data = some cols → ∀ s' ∈ cols, ∀ v', s'.sl = some v' →
+        ∀ o, h' v'.buf o = h v'.buf o) ∧
+    ((∀ w ∈ ws, n ≤ w.buf) → ∀ b, b < n → ∀ o, h' b o = h b o) := by
+  constructor
+  · intro hold nd hnd cols hcols s' hs' v' hv' o
+    apply hexec
+    rintro ⟨x, hx, hxb, _⟩
+    have h1 := hold x hx
+    have h2 := (treeCopyEff_fresh t nObj nArr n).1 nd hnd cols hcols s' hs' v' hv'
+    omega
+  · intro hnew b hb o
+    apply hexec
+    rintro ⟨x, hx, hxb, _⟩
+    have := hnew x hx
+    omega
+
+/-- a memstore-inclusive query as a whole: snapshot the memstore (`Tree.Copy` at buffer count
+    `n0`), then run the query path over any source rows — in particular rows whose memstore
+    column is a column of the snapshot.  Nothing that existed before is written. -/
+theorem query_with_snapshot_frame (nObj nArr n0 : Nat) (t : List TNode) (fe ex : Ex) (sm : SM)
+    (tres tb qres asOf hi stride : Int) (rows : List SrcRow) (ts : List Int) :
+    ∀ x ∈ (treeCopyEff nObj nArr n0 t).writes ++
+        (queryColEff (n0 + (treeCopyEff nObj nArr n0 t).allocs.length) fe ex sm tres tb qres asOf hi stride rows ts).writes,
+      n0 ≤ x.buf := by
+  intro x hx
+  rcases List.mem_append.mp hx with h | h
+  · exact ((treeCopyEff_fresh t nObj nArr n0).2 x h).1
+  · exact Nat.le_trans (Nat.le_add_right _ _) (query_frame _ fe ex sm tres tb qres asOf hi stride rows ts x h)
+
+/-- the code before /repo 63b81da (D9), for the record: the copy carried the live tree's own
+    data arrays and sequences — every view of the "copy" IS a view of the live tree (which is
+    why the frame theorems of the query path carried the whole burden then, and why a live
+    insert was visible through the snapshot: C18). -/
+theorem treeCopyShared_aliases (nObj : Nat) (t : List TNode) :
+    (treeCopyEffShared nObj t).map (·.data) = t.map (·.data) ∧
+    (treeCopyEffShared nObj t).map (·.dataArr) = t.map (·.dataArr) ∧
+    (treeCopyEffShared nObj t).map (·.obj) = (List.range t.length).map (· + nObj) :=
+  treeCopyEffShared_spec nObj t
 
 /-! ### the effect model and the value model describe the same function -/
 
@@ -378,6 +449,14 @@ example : subMergeEff 2 (.agg .sum (.field "a")) (.agg .sum (.field "a")) (.dire
 example : ((queryColEff 2 (.agg .sum (.field "a")) (.agg .sum (.field "a")) (.direct (.agg .sum (.field "a")))
     10 0 20 0 0 0 [⟨exA, none, { vals := [] }⟩, ⟨exA, some (100, 30, 26, 1000), { vals := [] }⟩] [1000]).writes.map (·.buf)) =
     [2, 3, 3, 3, 3, 3, 4, 5, 5, 5, 5, 3, 3, 3, 3] := by decide
+-- Tree.Copy of a two-node tree (node 0: two sequences in buffers 0 and 1, one nil column; node 1:
+-- no data): node 0's sequences are copied back to back into the fresh buffer 2 (44 + 26 bytes),
+-- cap = len, nil stays nil; the old code handed out the live views themselves
+example : treeCopyEff 10 20 2 [⟨0, 0, some [exA, SV.nil, exB]⟩, ⟨1, 1, none⟩] =
+    ⟨[⟨10, 20, some [⟨some ⟨2, 0, 44, 44⟩, 1000⟩, ⟨none, 0⟩, ⟨some ⟨2, 44, 26, 26⟩, 980⟩]⟩, ⟨11, 1, none⟩],
+      [70], [⟨2, 0, 44⟩, ⟨2, 44, 26⟩]⟩ := by decide
+example : treeCopyEffShared 10 [⟨0, 0, some [exA, SV.nil, exB]⟩, ⟨1, 1, none⟩] =
+    [⟨10, 0, some [exA, SV.nil, exB]⟩, ⟨11, 1, none⟩] := by decide
 -- Rep is inhabited by a non-trivial pair, and the value model agrees on the example above
 example : Rep 9 exA (some ⟨1000, [[.agg none], [.agg none], [.agg none], [.agg none]]⟩) := ⟨rfl, rfl⟩
 example : Sq.truncate (some ⟨1000, [[.agg none], [.agg none], [.agg none], [.agg none]]⟩) 10 970 990 =
